@@ -1,6 +1,6 @@
 CONSTANTS
   Kinds = {"run", "stage", "subs", "suspend", "lazy_stage", "monitor_during", "fly_during"}
-  MaxOps = 8
+  MaxOps = 9
   PMsgs = 4
   Thrown = {"Err", "Stop", "Abort"}
   PRaise = {"ErrI", "BaseI"}
@@ -8,7 +8,7 @@ CONSTANTS
   MisbehaveClose = TRUE
   AsCoded = TRUE
   Forests <- FBoth
-  DevLists <- Lists4x2
+  DevLists <- Lists4x3
   Styles = {"self", "status", "tree"}
   PosKinds = {"locate"}
   Positions = {0}
